@@ -567,17 +567,16 @@ class World(Domain):
         if isinstance(x, (SymInt, SymBool)):
             return True, SymStr([x])
         if isinstance(x, AObj):
-            if self.is_node(x) and self.lazy_services and not self._in_node_str:
-                # with full services str(node) is what FNode.__str__ gives (the human-readable printer, interpreted)
-                self._in_node_str = True
+            if self.is_node(x) and self.lazy_services:
+                # with full services str(node) is what FNode.__str__ gives (the human-readable printer, interpreted;
+                # re-entrant, as in Python: a printer that asks for the text of the node it prints recurses)
                 try:
                     r = it.call(it.getattr(x, "__str__"), [])
                     if isinstance(r, str):
                         return True, r
-                except Unsupported:
-                    pass
-                finally:
-                    self._in_node_str = False
+                except Unsupported as ex:
+                    if "interpreted call depth" in str(ex):
+                        raise
             if x.cls in self.repo.classes and not self.is_node(x):
                 for nm in ("__str__", "__repr__"):
                     q, f = self.repo.find_method(x.cls, nm)
@@ -817,6 +816,7 @@ class RealMgrWorld(World):
     def attach(self, it):
         World.attach(self, it)
         self.real_manager = True
+        self.lazy_services = True        # services (incl. the printer behind str(node) in error messages) are the real classes
         self.env.attrs["_stc"] = it.instantiate(ClassRef(STC), [self.env], {})
         self.mgr = it.instantiate(ClassRef(FM), [self.env], {})
         self.env.attrs["_formula_manager"] = self.mgr
